@@ -806,13 +806,27 @@ func (r *gRun) plainlyResolvable() bool {
 			return false
 		}
 		for slot, tag := range n.slots {
-			if slot != "A0" && slot != "A1" && slot != "A2" {
-				return false
-			}
 			if tag[0] != 'w' || strings.Contains(tag, ",") && !strings.HasSuffix(tag, ",required=false") {
 				return false
 			}
+			optional := strings.HasSuffix(tag, ",required=false")
 			target := strings.TrimSuffix(tag[1:], ",required=false")
+			if slot != "A0" && slot != "A1" && slot != "A2" {
+				// a typed point wired BY TYPE: resolvable when it is optional or some OTHER component is compatible
+				if target != "" {
+					return false
+				}
+				if !optional && !r.otherCompatible(i, slot) {
+					return false
+				}
+				continue
+			}
+			if target == "" {
+				if !optional && len(r.sc.nodes) < 2 && r.sc.zs == 0 {
+					return false
+				}
+				continue
+			}
 			j, ok := names[target]
 			if !ok || j == i {
 				return false
@@ -820,6 +834,36 @@ func (r *gRun) plainlyResolvable() bool {
 		}
 	}
 	return len(r.sc.nodes) > 0
+}
+
+// otherCompatible: does a component other than node i exist that the by-type slot accepts (static type facts only)?
+func (r *gRun) otherCompatible(i int, slot string) bool {
+	want := map[string]int{"P0": 0, "P1": 1, "P4": 4, "SP0": 0, "SP4": 4}
+	ifc := map[string]int{"X0": 0, "X0b": 0, "X1": 1, "X2": 2, "X3": 3, "S0": 0, "S1": 1, "S2": 2}
+	for j, n := range r.sc.nodes {
+		if j == i {
+			continue
+		}
+		if t, ok := want[slot]; ok {
+			if n.ty == t {
+				return true
+			}
+			continue
+		}
+		if f, ok := ifc[slot]; ok {
+			for _, x := range utInfos[n.ty].ifs {
+				if x == f {
+					return true
+				}
+			}
+			continue
+		}
+		return true // AS0: []any
+	}
+	if f, ok := ifc[slot]; ok && f == 0 && r.sc.zs > 0 {
+		return true // the zero-size components implement Ifc0
+	}
+	return slot == "AS0" && r.sc.zs > 0
 }
 
 func joinFails(f []string) string {
